@@ -16,7 +16,8 @@ RELS = ["permute_vertices", "permute_edges", "relabel_ids", "shift_2pi", "negate
 RULE = ("cases from rng(seed, 8, 0, i): relation = i mod 7 of " + ", ".join(RELS) + "; graphs: cluster graphs (mixed pose types, landmarks with rotated offsets, parallel / "
         "reversed edges) and trajectory graphs; information block-diagonal or with translation-rotation cross terms; K in 1..4 iterations or a run to convergence, fix_first_pose in {True, False}; for 30 % of the K-iteration cases the re-represented graph is also cloned after one iteration (copy.deepcopy, pickle round trip, deep copy of its edge and vertex lists re-listed in a new Graph) and the clone must continue bit-identically. "
         "distinct = fingerprint(spec, relation, K); non-trivial = the relation changed the representation (e.g. at least one quaternion negated / id changed) and the "
-        "optimizer moved some vertex by > 1e-6.")
+        "optimizer moved some vertex by > 1e-6."
+        " later additions: clones of a used graph (deepcopy / pickle), two live graphs sharing objects (continuing on the old or the new listing), permuted listings under fix_first_pose=True with equal fixed sets, one edge object listed twice, fixed flags after the file round trip.")
 REQ = ["eval:chi2-representation-invariant", "eval:result-representation-invariant"] + ["rel:" + r for r in RELS] + [
     "class:info_cross_terms", "class:info_blockdiag", "class:negated_vertex_quat", "class:negated_measurement_quat", "class:negated_offset_quat", "class:run_to_convergence", "class:fix_first_pose=True", "class:fix_first_pose=False", "class:objects_reused_in_second_graph", "class:rerepresented_graph_through_file", "class:whole_turns_written_in_place", "class:graph_with_4000+_edges", "class:cloned_graph:deepcopy", "class:cloned_graph:pickle", "class:cloned_graph:deepcopy_of_parts", "class:permuted_listing_with_fix_first_pose", "class:two_live_graphs_share_objects:continued_on_old", "class:same_edge_object_listed_twice"]
 PLAN = {
